@@ -19,12 +19,17 @@ work=$(mktemp -d /tmp/confirm-XXXXXX); trap 'rm -rf "$work"' EXIT
 for v in clean patched; do git -C /repo archive HEAD | tar -x -C "$work" --one-top-level=$v; done
 (cd "$work/patched" && patch -p1 -s < "$m/patch.diff") || { echo "CONFIRM patch-failed"; exit 3; }
 (cd "$work/patched" && go build ./... ) || { echo "CONFIRM build-failed"; exit 3; }
-suite=fail
-for i in 1 2 3 4 5 6 7 8 9 10; do
-  out=$(cd "$work/patched" && go test -vet=off -count=1 ./... 2>&1)
-  if ! echo "$out" | grep -q "^FAIL\|^--- FAIL\|panic:"; then suite=pass; break; fi
-  # only the known flake may be retried
-  if echo "$out" | grep "^--- FAIL\|Error:" | grep -v "timeout" | grep -q "Error:" && ! echo "$out" | grep -q "runtime limit: timeout"; then break; fi
+# each package must pass; a package is re-run (up to 10 times) only when its failure is the known
+# 2 ms timeout flake ("runtime limit: timeout", or the CompareError nil dereference it causes in ./samples)
+suite=pass
+for pkg in . ./datalog ./parser ./samples; do
+  ok=no
+  for i in 1 2 3 4 5 6 7 8 9 10; do
+    out=$(cd "$work/patched" && go test -vet=off -count=1 $pkg 2>&1)
+    if echo "$out" | grep -q "^ok"; then ok=yes; break; fi
+    echo "$out" | grep -q "runtime limit: timeout\|CompareError\|forbidden to read" || break
+  done
+  [ $ok = yes ] || { suite=fail; echo "suite: package $pkg fails: $(echo "$out" | grep -m3 "^--- FAIL\|panic:\|Error:" | tr '\n' ' ' | cut -c1-200)"; }
 done
 for v in clean patched; do cp "$m/demo_test.go" "$work/$v/$pkgdir/zz_demo_test.go"; done
 dc=fail; dp=fail
